@@ -200,8 +200,6 @@ NOT_APPLICABLE = {
 PENDING = {}
 # checks that exist but are held back from the manifest while a report on the unchanged tree is being triaged
 HOLD = {
-    "C36": "check built (SQL-literal interpolation and delimiter joins in the namespace catalog); its reports on the unchanged tree are "
-           "being reproduced before they are listed as known findings; not claimed until then",
     "C38": "check built (cache-key discriminators); its reports on the unchanged tree (version-only / fragment-id-only keys) are being "
            "reproduced before they are listed as known findings; not claimed until then",
 }
